@@ -85,6 +85,17 @@ theorem postL_unpoisoned (ord : Order) : ∀ (path : List FAtom) (st s : State),
       simp only [Option.some.injEq] at h
       rw [← h] at hsp; cases hsp
 
+/-- an unpoisoned path state of a query run from the empty state is the state its atoms post, query equation first -/
+theorem pathStates_from_empty (ord : Order) (n : Nat) (p : FProg) (qv : Term) (qs : List Term) (s1 : State)
+    (h1 : postAtom ord (State.empty n) (.eq qv (Term.ofList qs)) = .ok s1)
+    (s : State) (hs : s ∈ pathStates ord p s1) (hp : s.panic = none) :
+    ∃ path ∈ p.paths, postAllF ord (State.empty n) (.eq qv (Term.ofList qs) :: path) = .ok s := by
+  have hF : postF ord (State.empty n) (.eq qv (Term.ofList qs)) = .ok s1 := h1
+  obtain ⟨pan1, inv1⟩ := postF_pan ord (inv_empty n) hF
+  obtain ⟨path, hpath, hps⟩ := List.mem_filterMap.1 hs
+  have hall := postL_unpoisoned ord path s1 s inv1 pan1 hps hp
+  exact ⟨path, hpath, by simp only [postAllF, hF, Res.bind]; exact hall⟩
+
 /-- every unpoisoned path state of a query run from the EMPTY state, whose body posts well-formed domains and propagators
     and no CLP(Z) constraint, has the labelling invariants (`LInv`: well-formed, the state-machine invariant, every domain
     key unbound, every propagator live) -/
@@ -171,6 +182,125 @@ theorem C17_query_exactly_once {ord : Order} (ho : OrderOK ord) (dfs : Call → 
   exact ⟨k, zs, blocks, hk, fun s hsm => (hblocks s hsm).1, pz,
     fun s hsm c hc => ⟨((each s hsm).2 c hc).1, ((each s hsm).2 c hc).2.1⟩⟩
 
+/-- `C17_query_complete` — NO SOLUTION IS LOST, FOR THE WHOLE QUERY, ON THE ENGINE.  In the setting of `C17_query_exactly_once`:
+    for every path state `s` of the body and every valuation `γ` it describes (every solution of that path: `postAllF_sem`),
+    the block `c` of the query-term labelling that contains `γ` has an answer — the engine delivers the reified head of its
+    hidden labelling.  (With `C17_assignments_bijection`: that answer gives the query term the value `γ` gives it.) -/
+theorem C17_query_complete {ord : Order} (ho : OrderOK ord) (dfs : Call → State → State × G) (pf M : Nat)
+    (p : FProg) (qv : Term) (qs : List Term) (s0 s1 : State)
+    (h1 : (liftRes fun st => postAtom ord st (.eq qv (Term.ofList qs))) s0 = some s1)
+    (NOf : State → Nat) (xsOf : State → List State) (N2 : State → State → Nat) (dsOf ysOf : State → State → List State)
+    (hs : ∀ s ∈ pathStates ord p s1, LInv s ∧ s.panic = none ∧ OpsOK s ∧
+      evalRef dfs (NOf s) (forceAns ord forceFuel qv) s = some (xsOf s) ∧ (∀ c ∈ xsOf s, c.panic = none) ∧
+      ∀ c ∈ xsOf s, c.allBound = true ∧ c.dstore.length < forceFuel ∧
+        evalRef dfs (N2 s c) (forceAns ord forceFuel (Term.ofList ((ord.ds c.dstore).map fun q => Term.var q.1))) c = some (dsOf s c) ∧
+        (∀ t ∈ dsOf s c, t.panic = none) ∧
+        drainF (solveAt dfs pf (M + 1)) pf
+          (start dfs (solveAt dfs pf (M + 1)) pf
+            (Goal.conjOfList [forceAns ord forceFuel (Term.ofList ((ord.ds c.dstore).map fun q => Term.var q.1))]) c) = some (ysOf s c) ∧
+        (∀ t ∈ ysOf s c, t.panic = none)) :
+    ∃ (k : Nat) (zs : List State),
+      drainF (solveAt dfs pf (M + 2)) k (solveAt dfs pf (M + 2) (queryG ord qv qs [p.goal ord]) s0) = some zs ∧
+      ∀ s ∈ pathStates ord p s1, ∀ γ, Sem NoI γ s →
+        ∃ c ∈ xsOf s, Sem NoI γ c ∧ ∃ b, (ysOf s c).head? = some b ∧ reifyState ord b qv ∈ zs := by
+  obtain ⟨k, zs, blocks, hk, hbl, pz, hprops⟩ := C17_query_exactly_once ho dfs pf M p qv qs s0 s1 h1 NOf xsOf N2 dsOf ysOf hs
+  refine ⟨k, zs, hk, fun s hsm γ hγ => ?_⟩
+  obtain ⟨hi, hp, _, hx, hall, _⟩ := hs s hsm
+  have part := (forceAns_labelOK dfs ho forceFuel qv).1 (NOf s) s (xsOf s) hi.w hi.i hp hx hall
+  obtain ⟨c, hc, hsc⟩ := part.2.1 γ hγ
+  have hsome := (hprops s hsm c hc).2 ⟨γ, hsc⟩
+  cases hh : (ysOf s c).head? with
+  | none => rw [hh] at hsome; cases hsome
+  | some b =>
+    refine ⟨c, hc, hsc, b, hh, pz.mem_iff.1 ?_⟩
+    refine List.mem_flatMap.2 ⟨s, hsm, List.mem_map_of_mem (List.mem_flatMap.2 ⟨c, (hbl s hsm).mem_iff.1 hc, ?_⟩)⟩
+    rw [hh]; exact List.mem_singleton.2 rfl
+
+/-- `C17_query_no_duplicates` — NO ASSIGNMENT IS ANSWERED TWICE ALONG ONE PATH, FOR THE WHOLE QUERY, ON THE ENGINE.  In the setting
+    of `C17_query_exactly_once`: the closed states behind the answers that come from one path state give the query term PAIRWISE
+    DIFFERENT values — whatever valuation one describes and whatever valuation another describes.  (Two PATHS of a `conde` may
+    answer the same assignment once each: that is the multiplicity "per path" of the property.) -/
+theorem C17_query_no_duplicates {ord : Order} (ho : OrderOK ord) (dfs : Call → State → State × G) (pf M : Nat)
+    (p : FProg) (qv : Term) (qs : List Term) (s0 s1 : State)
+    (h1 : (liftRes fun st => postAtom ord st (.eq qv (Term.ofList qs))) s0 = some s1)
+    (NOf : State → Nat) (xsOf : State → List State) (N2 : State → State → Nat) (dsOf ysOf : State → State → List State)
+    (hs : ∀ s ∈ pathStates ord p s1, LInv s ∧ s.panic = none ∧ OpsOK s ∧
+      evalRef dfs (NOf s) (forceAns ord forceFuel qv) s = some (xsOf s) ∧ (∀ c ∈ xsOf s, c.panic = none) ∧
+      ∀ c ∈ xsOf s, c.allBound = true ∧ c.dstore.length < forceFuel ∧
+        evalRef dfs (N2 s c) (forceAns ord forceFuel (Term.ofList ((ord.ds c.dstore).map fun q => Term.var q.1))) c = some (dsOf s c) ∧
+        (∀ t ∈ dsOf s c, t.panic = none) ∧
+        drainF (solveAt dfs pf (M + 1)) pf
+          (start dfs (solveAt dfs pf (M + 1)) pf
+            (Goal.conjOfList [forceAns ord forceFuel (Term.ofList ((ord.ds c.dstore).map fun q => Term.var q.1))]) c) = some (ysOf s c) ∧
+        (∀ t ∈ ysOf s c, t.panic = none)) :
+    ∃ (k : Nat) (zs : List State) (blocks : State → List State),
+      drainF (solveAt dfs pf (M + 2)) k (solveAt dfs pf (M + 2) (queryG ord qv qs [p.goal ord]) s0) = some zs ∧
+      ((pathStates ord p s1).flatMap fun s =>
+        ((blocks s).flatMap fun c => ((ysOf s c).head?).toList).map fun b => reifyState ord b qv).Perm zs ∧
+      ∀ s ∈ pathStates ord p s1, ((blocks s).flatMap fun c => ((ysOf s c).head?).toList).Pairwise
+        (fun a b => ∀ γa γb, Sem NoI γa a → Sem NoI γb b → apply γa qv ≠ apply γb qv) := by
+  obtain ⟨k, zs, blocks, hk, hbl, pz, _⟩ := C17_query_exactly_once ho dfs pf M p qv qs s0 s1 h1 NOf xsOf N2 dsOf ysOf hs
+  refine ⟨k, zs, blocks, hk, pz, fun s hsm => ?_⟩
+  obtain ⟨hi, hp, hops, hx, hall, hblk⟩ := hs s hsm
+  obtain ⟨xs', px, _, hpw, _⟩ := C17_each_assignment_once ho dfs pf M qv s (NOf s) (xsOf s) hi hp hops hx hall (N2 s) (dsOf s) (ysOf s)
+    (fun c hc => ⟨(hblk c hc).1, (hblk c hc).2.1, (hblk c hc).2.2.1, (hblk c hc).2.2.2.1, (hblk c hc).2.2.2.2.1⟩)
+  have pp : (xs'.flatMap fun c => ((ysOf s c).head?).toList).Perm ((blocks s).flatMap fun c => ((ysOf s c).head?).toList) :=
+    ((px.symm.trans (hbl s hsm)).flatMap_right _)
+  exact (pp.pairwise_iff (fun {a b} h γa γb sa sb e => h γb γa sb sa e.symm)).1 hpw
+
+/-- `C16_query_answers_sound` — C16 FOR THE WHOLE QUERY, ON THE ENGINE.  A query run from the empty state whose body posts
+    well-formed domains and propagators (no CLP(Z) constraint), in the setting of `C17_query_exactly_once`: the engine
+    terminates, and EVERY answer it delivers is the reified form of a closed state `b` (no domain left) reached along one path
+    of the body, and — when `b` holds no tree disequality — every atom of that path (domains, FD constraints, `==`) and the
+    query equation hold under `b`'s own substitution: each constrained variable is an integer of its domain and every
+    posted constraint is satisfied. -/
+theorem C16_query_answers_sound {ord : Order} (ho : OrderOK ord) (dfs : Call → State → State × G) (pf M n : Nat)
+    (p : FProg) (hok : p.OK) (hnz : ∀ path ∈ p.paths, ∀ a ∈ path, a.NoZ) (qv : Term) (qs : List Term) (s1 : State)
+    (h1 : postAtom ord (State.empty n) (.eq qv (Term.ofList qs)) = .ok s1)
+    (NOf : State → Nat) (xsOf : State → List State) (N2 : State → State → Nat) (dsOf ysOf : State → State → List State)
+    (hs : ∀ s ∈ pathStates ord p s1, s.panic = none ∧ OpsOK s ∧
+      evalRef dfs (NOf s) (forceAns ord forceFuel qv) s = some (xsOf s) ∧ (∀ c ∈ xsOf s, c.panic = none) ∧
+      ∀ c ∈ xsOf s, c.allBound = true ∧ c.dstore.length < forceFuel ∧
+        evalRef dfs (N2 s c) (forceAns ord forceFuel (Term.ofList ((ord.ds c.dstore).map fun q => Term.var q.1))) c = some (dsOf s c) ∧
+        (∀ t ∈ dsOf s c, t.panic = none) ∧
+        drainF (solveAt dfs pf (M + 1)) pf
+          (start dfs (solveAt dfs pf (M + 1)) pf
+            (Goal.conjOfList [forceAns ord forceFuel (Term.ofList ((ord.ds c.dstore).map fun q => Term.var q.1))]) c) = some (ysOf s c) ∧
+        (∀ t ∈ ysOf s c, t.panic = none)) :
+    ∃ (k : Nat) (zs : List State),
+      drainF (solveAt dfs pf (M + 2)) k (solveAt dfs pf (M + 2) (queryG ord qv qs [p.goal ord]) (State.empty n)) = some zs ∧
+      ∀ z ∈ zs, ∃ path ∈ p.paths, ∃ b : State, z = reifyState ord b qv ∧ b.dstore = [] ∧
+        (b.store = [] → (TAtom.eq qv (Term.ofList qs)).Sat b.σ ∧ ∀ a ∈ path, a.Sat b.σ) := by
+  have hl : (liftRes fun st => postAtom ord st (.eq qv (Term.ofList qs))) (State.empty n) = some s1 := by
+    simp only [liftRes, h1]; rfl
+  have hs' : ∀ s ∈ pathStates ord p s1, LInv s ∧ _ := fun s hsm =>
+    ⟨C17_path_state_invariants ho n p hok hnz qv qs s1 h1 s hsm (hs s hsm).1, hs s hsm⟩
+  obtain ⟨k, zs, blocks, hk, hbl, pz, hprops⟩ :=
+    C17_query_exactly_once ho dfs pf M p qv qs (State.empty n) s1 hl NOf xsOf N2 dsOf ysOf hs'
+  refine ⟨k, zs, hk, fun z hz => ?_⟩
+  obtain ⟨s, hsm, hzs⟩ := List.mem_flatMap.1 (pz.mem_iff.2 hz)
+  obtain ⟨b, hb, rfl⟩ := List.mem_map.1 hzs
+  obtain ⟨c, hc, hbc⟩ := List.mem_flatMap.1 hb
+  have hcx : c ∈ xsOf s := (hbl s hsm).mem_iff.2 hc
+  have hh : (ysOf s c).head? = some b := by
+    cases hy : (ysOf s c).head? with
+    | none => rw [hy] at hbc; cases hbc
+    | some b' => rw [hy] at hbc; simp only [Option.toList_some, List.mem_singleton] at hbc; rw [hbc]
+  obtain ⟨hp, hops, hx, hall, hblk⟩ := hs s hsm
+  obtain ⟨path, hpath, hfull⟩ := pathStates_from_empty ord n p qv qs s1 h1 s hsm hp
+  refine ⟨path, hpath, b, rfl, ((hprops s hsm c hcx).1 b hh).1, fun hst => ?_⟩
+  have hokA : ∀ a ∈ (FAtom.eq qv (Term.ofList qs) :: path), a.OK := fun a ha => by
+    rcases List.mem_cons.1 ha with rfl | ha
+    · trivial
+    · exact FProg.paths_ok p hok path hpath a ha
+  have hnzA : ∀ a ∈ (FAtom.eq qv (Term.ofList qs) :: path), a.NoZ := fun a ha => by
+    rcases List.mem_cons.1 ha with rfl | ha
+    · trivial
+    · exact hnz path hpath a ha
+  have key := C16_enforce_answers_sound ho dfs pf M n _ hokA hnzA qv s hfull (NOf s) (xsOf s) hp hops hx hall (N2 s) (dsOf s) (ysOf s)
+    (fun c hc => ⟨(hblk c hc).1, (hblk c hc).2.1, (hblk c hc).2.2.1, (hblk c hc).2.2.2.1, (hblk c hc).2.2.2.2.1⟩) c hcx b hh hst
+  exact ⟨key _ List.mem_cons_self, fun a ha => key a (List.mem_cons_of_mem _ ha)⟩
+
 /-- the number of answers of the query is the sum over the paths of the number of states `enforce_constraints_fd` delivers -/
 theorem C17_query_count (ord : Order) (dfs : Call → State → State × G) (pf M : Nat)
     (p : FProg) (qv : Term) (qs : List Term) (s0 s1 : State) (B : State → List State)
@@ -183,6 +313,56 @@ theorem C17_query_count (ord : Order) (dfs : Call → State → State × G) (pf 
   refine ⟨k, zs, hk, ?_⟩
   rw [← pz.length_eq, List.length_flatMap]
   simp only [List.length_map]
+
+/-- `C10_query_branch_isolation` — BRANCHES DO NOT SEE EACH OTHER, FOR THE WHOLE QUERY, ON THE ENGINE.  A query whose body is
+    `conde { p ; q }` (tree and FD atoms, nested `conde`/`fresh` inside `p` and `q`) has — as a multiset — exactly the answers of
+    the query with body `p` together with the answers of the query with body `q`: nothing a branch posts (bindings, domains,
+    propagators, disequalities) reaches the other branch's answers, through labelling and reification included. -/
+theorem C10_query_branch_isolation (ord : Order) (dfs : Call → State → State × G) (pf M : Nat)
+    (p q : FProg) (qv : Term) (qs : List Term) (s0 s1 : State) (B : State → List State)
+    (h1 : (liftRes fun st => postAtom ord st (.eq qv (Term.ofList qs))) s0 = some s1)
+    (hE : ∀ s ∈ pathStates ord (.alt p q) s1,
+      AnsS (solveAt dfs pf (M + 2)) (solveAt dfs pf (M + 2) (enforceFd ord qv) s) (B s) ∧ ∀ b ∈ B s, b.panic = none) :
+    ∃ k kp kq zs zp zq,
+      drainF (solveAt dfs pf (M + 2)) k (solveAt dfs pf (M + 2) (queryG ord qv qs [(FProg.alt p q).goal ord]) s0) = some zs ∧
+      drainF (solveAt dfs pf (M + 2)) kp (solveAt dfs pf (M + 2) (queryG ord qv qs [p.goal ord]) s0) = some zp ∧
+      drainF (solveAt dfs pf (M + 2)) kq (solveAt dfs pf (M + 2) (queryG ord qv qs [q.goal ord]) s0) = some zq ∧
+      zs.Perm (zp ++ zq) := by
+  have hsplit : pathStates ord (.alt p q) s1 = pathStates ord p s1 ++ pathStates ord q s1 := by
+    simp only [pathStates, FProg.paths, List.filterMap_append]
+  obtain ⟨k, zs, hk, pz⟩ := C17_query_program ord dfs pf M (.alt p q) qv qs s0 s1 B h1 hE
+  obtain ⟨kp, zp, hkp, pzp⟩ := C17_query_program ord dfs pf M p qv qs s0 s1 B h1
+    (fun s hs => hE s (by rw [hsplit]; exact List.mem_append_left _ hs))
+  obtain ⟨kq, zq, hkq, pzq⟩ := C17_query_program ord dfs pf M q qv qs s0 s1 B h1
+    (fun s hs => hE s (by rw [hsplit]; exact List.mem_append_right _ hs))
+  refine ⟨k, kp, kq, zs, zp, zq, hk, hkp, hkq, ?_⟩
+  rw [hsplit, List.flatMap_append] at pz
+  exact pz.symm.trans (pzp.append pzq)
+
+/-- the same for `==` / `!=` programs run from the empty state, with no hypothesis on the states (`C02_query_tree`) -/
+theorem C10_query_branch_isolation_tree (ord : Order) (ho : OrderOK ord) (dfs : Call → State → State × G) (pf M n : Nat)
+    (p q : FProg) (hp : p.TreeOnly) (hq : q.TreeOnly) (qv : Term) (qs : List Term) (s1 : State)
+    (h1 : postAtom ord (State.empty n) (.eq qv (Term.ofList qs)) = .ok s1)
+    (hnf : ∀ path ∈ (FProg.alt p q).paths, postAllF ord s1 path ≠ .fuel)
+    (hsz : ∀ path ∈ (FProg.alt p q).paths, ∀ s, postAllF ord s1 path = .ok s → (apply s.σ qv).size ≤ forceFuel) :
+    ∃ k kp kq zs zp zq,
+      drainF (solveAt dfs (pf + 2) (M + 2)) k (solveAt dfs (pf + 2) (M + 2) (queryG ord qv qs [(FProg.alt p q).goal ord]) (State.empty n)) = some zs ∧
+      drainF (solveAt dfs (pf + 2) (M + 2)) kp (solveAt dfs (pf + 2) (M + 2) (queryG ord qv qs [p.goal ord]) (State.empty n)) = some zp ∧
+      drainF (solveAt dfs (pf + 2) (M + 2)) kq (solveAt dfs (pf + 2) (M + 2) (queryG ord qv qs [q.goal ord]) (State.empty n)) = some zq ∧
+      zs.Perm (zp ++ zq) := by
+  have hsplit : pathStates ord (.alt p q) s1 = pathStates ord p s1 ++ pathStates ord q s1 := by
+    simp only [pathStates, FProg.paths, List.filterMap_append]
+  have hpaths : (FProg.alt p q).paths = p.paths ++ q.paths := rfl
+  obtain ⟨k, zs, hk, pz⟩ := C02_query_tree ord ho dfs pf M n (.alt p q) ⟨hp, hq⟩ qv qs s1 h1 hnf hsz
+  obtain ⟨kp, zp, hkp, pzp⟩ := C02_query_tree ord ho dfs pf M n p hp qv qs s1 h1
+    (fun path h => hnf path (by rw [hpaths]; exact List.mem_append_left _ h))
+    (fun path h => hsz path (by rw [hpaths]; exact List.mem_append_left _ h))
+  obtain ⟨kq, zq, hkq, pzq⟩ := C02_query_tree ord ho dfs pf M n q hq qv qs s1 h1
+    (fun path h => hnf path (by rw [hpaths]; exact List.mem_append_right _ h))
+    (fun path h => hsz path (by rw [hpaths]; exact List.mem_append_right _ h))
+  refine ⟨k, kp, kq, zs, zp, zq, hk, hkp, hkq, ?_⟩
+  rw [hsplit, List.map_append] at pz
+  exact pz.symm.trans (pzp.append pzq)
 
 /-- C04's reading of `C17_query_program` for REORDERED CLAUSES: two bodies whose lists of path states are permutations of
     each other (swapping the clauses of a `conde`, at any depth, permutes the paths and leaves each path's atoms — hence
@@ -243,89 +423,132 @@ private theorem qSideOK_true : qSideOK = true := by decide +kernel
 
 private theorem isNone_none {α : Type} {o : Option α} (h : o.isNone = true) : o = none := Option.isNone_iff_eq_none.1 h
 
+private theorem qOrderOK : OrderOK Order.default := ⟨fun _ => .refl _, fun _ => .refl _, fun _ => .refl _⟩
+private theorem qOK : qP.OK := ⟨by show (1 : Int) ≤ 2; decide, by show (1 : Int) ≤ 2; decide, trivial⟩
+private theorem qNoZ : ∀ path ∈ qP.paths, ∀ a ∈ path, a.NoZ := by
+  intro path hpath a ha
+  simp only [qP, FProg.paths, List.flatMap_cons, List.flatMap_nil, List.map_cons, List.map_nil, List.append_nil,
+    List.cons_append, List.nil_append, List.mem_singleton] at hpath
+  subst hpath
+  simp only [List.mem_cons, List.mem_nil_iff, or_false] at ha
+  rcases ha with rfl | rfl | rfl <;> first | trivial | rfl
+
+/-- every per-path-state hypothesis of `C16_query_answers_sound` / `C17_query_exactly_once`, from the Boolean check -/
+private theorem qHyps (s1 : State) (h1 : postAtom Order.default (State.empty 3) (.eq qV (Term.ofList [.var 0])) = .ok s1) :
+    ∀ s ∈ pathStates Order.default qP s1, s.panic = none ∧ OpsOK s ∧
+      evalRef qDfs 40 (forceAns Order.default forceFuel qV) s = some (qXs s) ∧ (∀ c ∈ qXs s, c.panic = none) ∧
+      ∀ c ∈ qXs s, c.allBound = true ∧ c.dstore.length < forceFuel ∧
+        evalRef qDfs 40 (forceAns Order.default forceFuel (Term.ofList ((Order.default.ds c.dstore).map fun q => Term.var q.1))) c = some (qDs s c) ∧
+        (∀ t ∈ qDs s c, t.panic = none) ∧
+        drainF (solveAt qDfs 30 2) 30
+          (start qDfs (solveAt qDfs 30 2) 30
+            (Goal.conjOfList [forceAns Order.default forceFuel (Term.ofList ((Order.default.ds c.dstore).map fun q => Term.var q.1))]) c) = some (qYs s c) ∧
+        (∀ t ∈ qYs s c, t.panic = none) := by
+  have hside := qSideOK_true
+  unfold qSideOK at hside
+  rw [h1] at hside
+  simp only [Bool.and_eq_true] at hside
+  have hall := List.all_eq_true.1 hside.1
+  intro s hsm
+  have hst := hall s hsm
+  unfold qStateOK at hst
+  simp only [Bool.and_eq_true] at hst
+  obtain ⟨⟨⟨hp, hab⟩, hkind⟩, hx⟩ := hst
+  have hpn : s.panic = none := isNone_none hp
+  have hi := C17_path_state_invariants qOrderOK 3 qP qOK qNoZ qV [.var 0] s1 h1 s hsm hpn
+  have hops : OpsOK s := C17_opsOK_of_allBound s hab hi.z (fun q hq hd u hu => by
+    have := (List.all_eq_true.1 hkind) q hq
+    rw [hd, Bool.false_or] at this
+    have := (List.all_eq_true.1 this) u hu
+    simpa [Bool.or_eq_true] using this)
+  cases h2 : evalRef qDfs 40 (forceAns Order.default forceFuel qV) s with
+  | none => rw [h2] at hx; cases hx
+  | some xs =>
+    rw [h2] at hx
+    have hxs := List.all_eq_true.1 hx
+    have eX : qXs s = xs := by unfold qXs; rw [h2]; rfl
+    rw [eX]
+    have blk : ∀ c ∈ xs, c.panic = none ∧ c.allBound = true ∧ c.dstore.length < forceFuel ∧
+        evalRef qDfs 40 (forceAns Order.default forceFuel (qKeys c)) c = some (qDs s c) ∧ (∀ t ∈ qDs s c, t.panic = none) ∧
+        drainF (solveAt qDfs 30 2) 30 (start qDfs (solveAt qDfs 30 2) 30
+          (Goal.conjOfList [forceAns Order.default forceFuel (qKeys c)]) c) = some (qYs s c) ∧
+        (∀ t ∈ qYs s c, t.panic = none) := by
+      intro c hc
+      have hb := hxs c hc
+      unfold qBlockOK at hb
+      simp only [Bool.and_eq_true, decide_eq_true_eq] at hb
+      obtain ⟨⟨⟨⟨⟨b1, b2⟩, b3⟩, b4⟩, b5⟩, b6⟩ := hb
+      refine ⟨isNone_none b1, b2, b3, ?_, ?_, ?_, fun t ht => isNone_none ((List.all_eq_true.1 b6) t ht)⟩
+      · unfold qDs; cases he : evalRef qDfs 40 (forceAns Order.default forceFuel (qKeys c)) c with
+        | none => rw [he] at b4; cases b4
+        | some ds => rfl
+      · unfold qDs; cases he : evalRef qDfs 40 (forceAns Order.default forceFuel (qKeys c)) c with
+        | none => rw [he] at b4; cases b4
+        | some ds =>
+          rw [he] at b4
+          intro t ht
+          exact isNone_none ((List.all_eq_true.1 b4) t ht)
+      · unfold qYs
+        cases hd : drainF (solveAt qDfs 30 2) 30 (start qDfs (solveAt qDfs 30 2) 30
+            (Goal.conjOfList [forceAns Order.default forceFuel (qKeys c)]) c) with
+        | none => rw [hd] at b5; cases b5
+        | some ys => rfl
+    exact ⟨hpn, hops, rfl, fun c hc => (blk c hc).1, fun c hc => (blk c hc).2⟩
+
+private theorem qH1 : ∃ s1, postAtom Order.default (State.empty 3) (.eq qV (Term.ofList [.var 0])) = .ok s1 := by
+  have hside := qSideOK_true
+  unfold qSideOK at hside
+  cases h1 : postAtom Order.default (State.empty 3) (.eq qV (Term.ofList [.var 0])) with
+  | ok s1 => exact ⟨s1, rfl⟩
+  | fail => rw [h1] at hside; cases hside
+  | fuel => rw [h1] at hside; cases hside
+  | panic _ => rw [h1] at hside; cases hside
+
+/-- `C17_query_exactly_once` applies -/
 example : ∃ (s1 : State) (k : Nat) (zs : List State) (blocks : State → List State),
     postAtom Order.default (State.empty 3) (.eq qV (Term.ofList [.var 0])) = .ok s1 ∧
     drainF (solveAt qDfs 30 3) k (solveAt qDfs 30 3 (queryG Order.default qV [.var 0] [qP.goal Order.default]) (State.empty 3)) = some zs ∧
     ((pathStates Order.default qP s1).flatMap fun s =>
       ((blocks s).flatMap fun c => ((qYs s c).head?).toList).map fun b => reifyState Order.default b qV).Perm zs := by
-  have ho : OrderOK Order.default := ⟨fun _ => .refl _, fun _ => .refl _, fun _ => .refl _⟩
-  have hside := qSideOK_true
-  unfold qSideOK at hside
-  cases h1 : postAtom Order.default (State.empty 3) (.eq qV (Term.ofList [.var 0])) with
-  | ok s1 =>
-    rw [h1] at hside
-    simp only [Bool.and_eq_true] at hside
-    have hall := List.all_eq_true.1 hside.1
-    have hl : (liftRes fun st => postAtom Order.default st (.eq qV (Term.ofList [.var 0]))) (State.empty 3) = some s1 := by
-      simp only [liftRes, h1]; rfl
-    have hok : qP.OK := ⟨by show (1 : Int) ≤ 2; decide, by show (1 : Int) ≤ 2; decide, trivial⟩
-    have hnz : ∀ path ∈ qP.paths, ∀ a ∈ path, a.NoZ := by
-      intro path hpath a ha
-      simp only [qP, FProg.paths, List.flatMap_cons, List.flatMap_nil, List.map_cons, List.map_nil, List.append_nil,
-        List.cons_append, List.nil_append, List.mem_singleton] at hpath
-      subst hpath
-      simp only [List.mem_cons, List.mem_nil_iff, or_false] at ha
-      rcases ha with rfl | rfl | rfl <;> first | trivial | rfl
-    have hs : ∀ s ∈ pathStates Order.default qP s1, LInv s ∧ s.panic = none ∧ OpsOK s ∧
-        evalRef qDfs 40 (forceAns Order.default forceFuel qV) s = some (qXs s) ∧ (∀ c ∈ qXs s, c.panic = none) ∧
-        ∀ c ∈ qXs s, c.allBound = true ∧ c.dstore.length < forceFuel ∧
-          evalRef qDfs 40 (forceAns Order.default forceFuel (Term.ofList ((Order.default.ds c.dstore).map fun q => Term.var q.1))) c = some (qDs s c) ∧
-          (∀ t ∈ qDs s c, t.panic = none) ∧
-          drainF (solveAt qDfs 30 2) 30
-            (start qDfs (solveAt qDfs 30 2) 30
-              (Goal.conjOfList [forceAns Order.default forceFuel (Term.ofList ((Order.default.ds c.dstore).map fun q => Term.var q.1))]) c) = some (qYs s c) ∧
-          (∀ t ∈ qYs s c, t.panic = none) := by
-      intro s hsm
-      have hst := hall s hsm
-      unfold qStateOK at hst
-      simp only [Bool.and_eq_true] at hst
-      obtain ⟨⟨⟨hp, hab⟩, hkind⟩, hx⟩ := hst
-      have hpn : s.panic = none := isNone_none hp
-      have hi := C17_path_state_invariants ho 3 qP hok hnz qV [.var 0] s1 h1 s hsm hpn
-      have hops : OpsOK s := C17_opsOK_of_allBound s hab hi.z (fun q hq hd u hu => by
-        have := (List.all_eq_true.1 hkind) q hq
-        rw [hd, Bool.false_or] at this
-        have := (List.all_eq_true.1 this) u hu
-        simpa [Bool.or_eq_true] using this)
-      cases h2 : evalRef qDfs 40 (forceAns Order.default forceFuel qV) s with
-      | none => rw [h2] at hx; cases hx
-      | some xs =>
-        rw [h2] at hx
-        have hxs := List.all_eq_true.1 hx
-        have eX : qXs s = xs := by unfold qXs; rw [h2]; rfl
-        rw [eX]
-        have blk : ∀ c ∈ xs, c.panic = none ∧ c.allBound = true ∧ c.dstore.length < forceFuel ∧
-            evalRef qDfs 40 (forceAns Order.default forceFuel (qKeys c)) c = some (qDs s c) ∧ (∀ t ∈ qDs s c, t.panic = none) ∧
-            drainF (solveAt qDfs 30 2) 30 (start qDfs (solveAt qDfs 30 2) 30
-              (Goal.conjOfList [forceAns Order.default forceFuel (qKeys c)]) c) = some (qYs s c) ∧
-            (∀ t ∈ qYs s c, t.panic = none) := by
-          intro c hc
-          have hb := hxs c hc
-          unfold qBlockOK at hb
-          simp only [Bool.and_eq_true, decide_eq_true_eq] at hb
-          obtain ⟨⟨⟨⟨⟨b1, b2⟩, b3⟩, b4⟩, b5⟩, b6⟩ := hb
-          refine ⟨isNone_none b1, b2, b3, ?_, ?_, ?_, fun t ht => isNone_none ((List.all_eq_true.1 b6) t ht)⟩
-          · unfold qDs; cases he : evalRef qDfs 40 (forceAns Order.default forceFuel (qKeys c)) c with
-            | none => rw [he] at b4; cases b4
-            | some ds => rfl
-          · unfold qDs; cases he : evalRef qDfs 40 (forceAns Order.default forceFuel (qKeys c)) c with
-            | none => rw [he] at b4; cases b4
-            | some ds =>
-              rw [he] at b4
-              intro t ht
-              exact isNone_none ((List.all_eq_true.1 b4) t ht)
-          · unfold qYs
-            cases hd : drainF (solveAt qDfs 30 2) 30 (start qDfs (solveAt qDfs 30 2) 30
-                (Goal.conjOfList [forceAns Order.default forceFuel (qKeys c)]) c) with
-            | none => rw [hd] at b5; cases b5
-            | some ys => rfl
-        exact ⟨hi, hpn, hops, rfl, fun c hc => (blk c hc).1, fun c hc => (blk c hc).2⟩
-    obtain ⟨k, zs, blocks, hk, _, pz, _⟩ := C17_query_exactly_once ho qDfs 30 1 qP qV [.var 0] (State.empty 3) s1 hl
-      (fun _ => 40) qXs (fun _ _ => 40) qDs qYs hs
-    exact ⟨s1, k, zs, blocks, rfl, hk, pz⟩
-  | fail => rw [h1] at hside; cases hside
-  | fuel => rw [h1] at hside; cases hside
-  | panic _ => rw [h1] at hside; cases hside
+  obtain ⟨s1, h1⟩ := qH1
+  have hl : (liftRes fun st => postAtom Order.default st (.eq qV (Term.ofList [.var 0]))) (State.empty 3) = some s1 := by
+    simp only [liftRes, h1]; rfl
+  obtain ⟨k, zs, blocks, hk, _, pz, _⟩ := C17_query_exactly_once qOrderOK qDfs 30 1 qP qV [.var 0] (State.empty 3) s1 hl
+    (fun _ => 40) qXs (fun _ _ => 40) qDs qYs
+    (fun s hsm => ⟨C17_path_state_invariants qOrderOK 3 qP qOK qNoZ qV [.var 0] s1 h1 s hsm (qHyps s1 h1 s hsm).1, qHyps s1 h1 s hsm⟩)
+  exact ⟨s1, k, zs, blocks, h1, hk, pz⟩
+
+/-- `C16_query_answers_sound` applies: every answer of the engine is the reified form of a closed state along the body's path -/
+example : ∃ (k : Nat) (zs : List State),
+    drainF (solveAt qDfs 30 3) k (solveAt qDfs 30 3 (queryG Order.default qV [.var 0] [qP.goal Order.default]) (State.empty 3)) = some zs ∧
+    ∀ z ∈ zs, ∃ path ∈ qP.paths, ∃ b : State, z = reifyState Order.default b qV ∧ b.dstore = [] ∧
+      (b.store = [] → (TAtom.eq qV (Term.ofList [.var 0])).Sat b.σ ∧ ∀ a ∈ path, a.Sat b.σ) := by
+  obtain ⟨s1, h1⟩ := qH1
+  exact C16_query_answers_sound qOrderOK qDfs 30 1 3 qP qOK qNoZ qV [.var 0] s1 h1 (fun _ => 40) qXs (fun _ _ => 40) qDs qYs
+    (qHyps s1 h1)
+/-- `C17_query_complete` and `C17_query_no_duplicates` apply -/
+example : ∃ (s1 : State) (k : Nat) (zs : List State),
+    drainF (solveAt qDfs 30 3) k (solveAt qDfs 30 3 (queryG Order.default qV [.var 0] [qP.goal Order.default]) (State.empty 3)) = some zs ∧
+    ∀ s ∈ pathStates Order.default qP s1, ∀ γ, Sem NoI γ s →
+      ∃ c ∈ qXs s, Sem NoI γ c ∧ ∃ b, (qYs s c).head? = some b ∧ reifyState Order.default b qV ∈ zs := by
+  obtain ⟨s1, h1⟩ := qH1
+  have hl : (liftRes fun st => postAtom Order.default st (.eq qV (Term.ofList [.var 0]))) (State.empty 3) = some s1 := by
+    simp only [liftRes, h1]; rfl
+  obtain ⟨k, zs, hk, hc⟩ := C17_query_complete qOrderOK qDfs 30 1 qP qV [.var 0] (State.empty 3) s1 hl
+    (fun _ => 40) qXs (fun _ _ => 40) qDs qYs
+    (fun s hsm => ⟨C17_path_state_invariants qOrderOK 3 qP qOK qNoZ qV [.var 0] s1 h1 s hsm (qHyps s1 h1 s hsm).1, qHyps s1 h1 s hsm⟩)
+  exact ⟨s1, k, zs, hk, hc⟩
+example : ∃ (s1 : State) (k : Nat) (zs : List State) (blocks : State → List State),
+    drainF (solveAt qDfs 30 3) k (solveAt qDfs 30 3 (queryG Order.default qV [.var 0] [qP.goal Order.default]) (State.empty 3)) = some zs ∧
+    ∀ s ∈ pathStates Order.default qP s1, ((blocks s).flatMap fun c => ((qYs s c).head?).toList).Pairwise
+      (fun a b => ∀ γa γb, Sem NoI γa a → Sem NoI γb b → apply γa qV ≠ apply γb qV) := by
+  obtain ⟨s1, h1⟩ := qH1
+  have hl : (liftRes fun st => postAtom Order.default st (.eq qV (Term.ofList [.var 0]))) (State.empty 3) = some s1 := by
+    simp only [liftRes, h1]; rfl
+  obtain ⟨k, zs, blocks, hk, _, hpw⟩ := C17_query_no_duplicates qOrderOK qDfs 30 1 qP qV [.var 0] (State.empty 3) s1 hl
+    (fun _ => 40) qXs (fun _ _ => 40) qDs qYs
+    (fun s hsm => ⟨C17_path_state_invariants qOrderOK 3 qP qOK qNoZ qV [.var 0] s1 h1 s hsm (qHyps s1 h1 s hsm).1, qHyps s1 h1 s hsm⟩)
+  exact ⟨s1, k, zs, blocks, hk, hpw⟩
 end NonVacuity
 
 section Examples
